@@ -187,12 +187,19 @@ def churn_actions(jp, env):
 
 def part_a(jp, rec, R, n_cases):
     from jsonpath_rfc9535 import JSONPathEnvironment
-    env = JSONPathEnvironment()
+    env_d = JSONPathEnvironment()
     env2 = JSONPathEnvironment()
-    churns = churn_actions(jp, env)
+    env_nd = type("NDEnv", (JSONPathEnvironment,), {"nondeterministic": True})()
+    churns_d = churn_actions(jp, env_d)
+    churns_nd = churn_actions(jp, env_nd)
     for _ in range(n_cases):
         k = R.choice([2, 2, 3])
         mode = R.choice(["same-query-same-value", "same-query-different-values", "different-queries-one-env", "different-envs"])
+        # one case in five uses an environment in nondeterministic mode: the order of an iterator's nodes is then free, but WHICH nodes
+        # it yields (as a multiset) is not, however the iterators are interleaved
+        nd = R.random() < 0.2
+        env = env_nd if nd else env_d
+        churns = churns_nd if nd else churns_d
         texts = [gen_query_text(R)]
         docs = [make_doc(R)]
         srcs = []
@@ -247,6 +254,16 @@ def part_a(jp, rec, R, n_cases):
             rec.case((tuple(t for _, _, t in srcs), tuple(D.short(v, 500) for _, v, _ in srcs), sched, abandon), alternates)
             for i in range(k):
                 want = solo[i]
+                if nd:
+                    if abandon is not None and abandon[0] == i:
+                        from collections import Counter as _C
+                        if _C(got[i]) - _C(want):
+                            rec.violation("abandoned-iterator-prefix-differs", dict(witness(srcs, sched, abandon, i, got[i], want), mode="nondeterministic environment: compared as multisets"))
+                        continue
+                    if sorted(got[i], key=repr) != sorted(want, key=repr):
+                        rec.violation("interleaved-sequence-differs", dict(witness(srcs, sched, abandon, i, got[i], want), mode="nondeterministic environment: compared as multisets"))
+                        break
+                    continue
                 if abandon is not None and abandon[0] == i:
                     if got[i] != want[:len(got[i])]:
                         rec.violation("abandoned-iterator-prefix-differs", witness(srcs, sched, abandon, i, got[i], want))
@@ -257,7 +274,7 @@ def part_a(jp, rec, R, n_cases):
                         w_["unrelated_library_use_before_step"] = [churn[0], churn_name]
                     rec.violation("interleaved-sequence-differs", w_)
                     break
-        rec.feat("mode:" + mode)
+        rec.feat("mode:" + mode + (":nondeterministic" if nd else ""))
         rec.feat("schedules", nsched)
         rec.sample({"queries": [t for _, _, t in srcs], "result_lengths": lengths, "schedules_executed": nsched, "mode": mode}, limit=4)
 
